@@ -449,6 +449,11 @@ class Simulator(EventProducer, SimulatorInterface, Generic[TIME]):
     def _stop_impl(self):
         """Implementation of the stop behavior."""
         self._run_state = RunState.STOPPING
+        if threading.current_thread() is self.__worker:
+            # called from within the run (by an event or a listener): the 
+            # run loop stops after the current event; waiting here would be
+            # waiting for ourselves, for a full second
+            return
         # wait till the worker thread is waiting or ready (end replication)
         msec: int = int(time.time() * 1000)
         while (not self.__worker.is_waiting() 
